@@ -144,6 +144,7 @@ func workerMain(args []string) {
 	goldBin := fs.String("golden-bin", "", "")
 	_ = fs.Parse(args)
 	loadCorpus(*corpusPath)
+	bigWorlds = a.tier == "thorough"
 	gs := newGoldenStore(*goldDir, *goldBin)
 	out = bufio.NewWriterSize(os.Stdout, 1<<16)
 
